@@ -9,6 +9,7 @@
 //   - dec / rt: the real ReadFrameFromReader / WriteFrameToWriter with recover() and allocation
 //     accounting;
 //   - fwd: two real session.runBidirectionalForward loops joined by a FrameStream pair.
+//
 // The recorded observations are judged by spec/CrossFrameTrace.tla.
 package main
 
@@ -30,15 +31,20 @@ func h64(seed int64, s string) uint64 {
 }
 
 type genLine struct {
-	Kind   string   `json:"kind"`
-	Rsz    string   `json:"rsz"`
-	Script []op     `json:"script"`
-	C      decClass `json:"c"`
-	Len    string   `json:"len"`
-	Ty     string   `json:"ty"`
-	Pat    string   `json:"pat"`
-	Req    string   `json:"req"`
-	Resp   string   `json:"resp"`
+	Kind   string          `json:"kind"`
+	Rsz    string          `json:"rsz"`
+	Script []op            `json:"script"`
+	C      json.RawMessage `json:"c"`
+	Len    string          `json:"len"`
+	Ty     string          `json:"ty"`
+	Pat    string          `json:"pat"`
+	Req    string          `json:"req"`
+	Resp   string          `json:"resp"`
+	Cnt    string          `json:"cnt"`
+	Eofs   string          `json:"eofs"`
+	Nw     int             `json:"nw"`
+	Pl     string          `json:"pl"`
+	Styles []string        `json:"styles"`
 }
 
 // keepPermille: share of the exhaustively enumerated scripts outside the core set that is driven
@@ -92,7 +98,10 @@ func expand(env *fw.Env, src string, raw json.RawMessage) []json.RawMessage {
 			out = append(out, fw.MustJSON(streamBeh{Kind: "stream", Rsz: g.Rsz, Idk: idk, Start: start, Salt: salt, Script: g.Script}))
 		}
 	case "dec":
-		c := g.C
+		var c decClass
+		if err := json.Unmarshal(g.C, &c); err != nil {
+			panic(err)
+		}
 		if c.Hdr != "full" && (c.Ty != "known" || c.Decl != "0" || c.Avail != "none") {
 			return nil // without a complete header the other dimensions do not exist
 		}
@@ -127,7 +136,30 @@ func expand(env *fw.Env, src string, raw json.RawMessage) []json.RawMessage {
 			out = append(out, fw.MustJSON(listenerBeh{Kind: "listener", Dsz: d, Cuts: l.Cuts, Pre: pre, Salt: salt}))
 		}
 	case "fwd":
-		out = append(out, fw.MustJSON(fwdBeh{Kind: "fwd", Pat: g.Pat, Req: g.Req, Resp: g.Resp, Idk: []string{"long", "short"}[(h>>10)%2], Salt: salt}))
+		out = append(out, fw.MustJSON(fwdBeh{Kind: "fwd", Pat: g.Pat, Req: g.Req, Resp: g.Resp, Cnt: g.Cnt, Eofs: g.Eofs, Idk: []string{"long", "short"}[(h>>10)%2], Salt: salt}))
+	case "par":
+		// our writer issues the Write often enough for a few thousand frame boundaries to be exposed
+		// to the other tunnels' writers (large frames: fewer, the payload write is long)
+		var pc string
+		if err := json.Unmarshal(g.C, &pc); err != nil {
+			panic(err)
+		}
+		rep, frames := 1500, 1500
+		if pc != "one" {
+			rep = 40
+		}
+		if g.Pl == "M" {
+			frames = 40
+		}
+		for v := 0; v < 2; v++ {
+			end := []string{"eof", "close"}[(int(h>>13)+v)%2]
+			out = append(out, fw.MustJSON(streamBeh{Kind: "stream", Rsz: []string{"one", "small", "big"}[(int(h>>14)+v)%3], Idk: "long", Start: "live",
+				Salt: salt + int64(v), Script: []op{{Op: "write", C: pc, Exp: "ok", Rep: rep}, {Op: end}}, Par: g.Nw, ParFrames: frames, ParPl: g.Pl}))
+		}
+	case "pool":
+		for v, c := range []string{"one", "Mp1"} {
+			out = append(out, fw.MustJSON(poolBeh{Kind: "pool", Styles: g.Styles, C: c, Salt: salt + int64(v)}))
+		}
 	default:
 		panic("unknown behaviour kind " + g.Kind)
 	}
@@ -159,6 +191,14 @@ func drive(env *fw.Env, b fw.Behaviour) *fw.Trace {
 			return driveDec(env, &db)
 		}
 		return driveRt(env, &db)
+	case "pool":
+		var pb poolBeh
+		if err := json.Unmarshal(b.Data, &pb); err != nil {
+			return &fw.Trace{Status: fw.DriverError, Note: err.Error()}
+		}
+		quiet.RLock()
+		defer quiet.RUnlock()
+		return drivePool(env, &pb)
 	case "listener":
 		var lb listenerBeh
 		if err := json.Unmarshal(b.Data, &lb); err != nil {
@@ -274,6 +314,18 @@ func selfTest(env *fw.Env, accepted []*fw.Trace) []*fw.Trace {
 			c := next(t)
 			c.Events[i]["eq"] = false
 			out = append(out, c)
+		case "pool":
+			i := find(t, "PT", func(e fw.Event) bool { return e["sent"].(int) > 0 && e["needEof"] == true })
+			if i < 0 || done["pool"] >= 2 {
+				continue
+			}
+			done["pool"]++
+			c := next(t) // the reused connection delivered nothing
+			c.Events[i]["len"] = 0
+			out = append(out, c)
+			c = next(t)
+			c.Events[i]["eof"] = false
+			out = append(out, c)
 		case "listener":
 			i := find(t, "LD", func(e fw.Event) bool { return e["sent"].(int) > 0 })
 			if i < 0 || done["listener"] >= 2 {
@@ -324,6 +376,7 @@ func main() {
 				jobs = []fw.TLCJob{
 					{Name: "mc:CrossFrame_mc.cfg(W=3,all kinds)", Module: "CrossFrame", Cfg: "CrossFrame_mc.cfg",
 						Consts: map[string]string{"MAXW": "3", "INJ": `{"fd", "fdn", "fds", "fe", "fen", "fes", "unk"}`}, Timeout: 14 * time.Minute},
+					{Name: "mc:CrossFramePool_fixed.cfg", Module: "CrossFramePool", Cfg: "CrossFramePool_fixed.cfg", Workers: 1},
 					{Name: "mc:CrossFrame_strict.cfg(W=3)", Module: "CrossFrame", Cfg: "CrossFrame_strict.cfg", Consts: map[string]string{"MAXW": "3"}, Timeout: 14 * time.Minute},
 				}
 			}
@@ -342,10 +395,12 @@ func main() {
 			// the listener hand-over model is tiny: one run checks its invariants exhaustively and prints its behaviours
 			lst := fw.TLCJob{Name: "mc+gen:CrossFrameListener", Module: "CrossFrameListener", Cfg: "CrossFrameListener.cfg", Workers: 2,
 				Consts: map[string]string{"EMIT": "TRUE"}}
+			pl := fw.TLCJob{Name: "mc+gen:CrossFramePool", Module: "CrossFramePool", Cfg: "CrossFramePool.cfg", Workers: 1,
+				Consts: map[string]string{"EMIT": "TRUE", "REJ": "FALSE"}} // FALSE: IsHealthy as coded before fix C10-1; the invariants checked hold for both
 			if env.Tier == "thorough" {
-				return []fw.TLCJob{gen(2, 2), gen(3, 1), sim(6000), lst}
+				return []fw.TLCJob{gen(2, 2), gen(3, 1), sim(6000), lst, pl}
 			}
-			return []fw.TLCJob{gen(2, 1), sim(400), lst}
+			return []fw.TLCJob{gen(2, 1), sim(400), lst, pl}
 		},
 		Expand:      expand,
 		Drive:       drive,
